@@ -234,7 +234,7 @@ def xy(ctx):
     if not sparse and r.random() < 0.3:
         X = X.drop(X.index[kcut])
         ctx.cat("xy-row-missing-at-cut")
-    rate = pd.Series(rng.uniform(0, 0.03, n), dates, name="r")
+    rate = pd.Series(rng.uniform(-0.01, 0.03, n), dates, name="r")
     sd = r.choice([0, 1])
     acts = [np.array([0.3, -0.2]), np.array([0., 0.5]), np.array([-0.4, 0.1])]
 
